@@ -11,8 +11,9 @@ contract("uxarray.grid.intersections.fast_constant_lat_intersections", props=["C
          ensures=[
              "forall(0, len(result), lambda t: 0 <= result[t] and result[t] < n_edge and " + _OPP.format(e="result[t]") + ")",
              "forall(0, n_edge, lambda e: implies(" + _OPP.format(e="e") + ", exists(0, len(result), lambda t: result[t] == e)))",
-             # no duplicates, increasing order: independent of thread schedule (each iteration writes only its own mask cell)
-             "forall(0, len(result), 0, len(result), lambda t, u: implies(t < u, result[t] < result[u]))",
+             # no duplicates (the order is not part of the property); independent of the thread schedule because each
+             # iteration writes only its own mask cell
+             "forall(0, len(result), 0, len(result), lambda t, u: implies(t < u, result[t] != result[u]))",
          ],
          loops={0: loop(counter="k", invariants=[
              # `lat` is rebound to radians inside the function: the invariant speaks about the entry value
